@@ -294,16 +294,14 @@ Proof.
 Qed.
 
 (** put_blocks on a batch that continues the chain succeeds: no error, no panic *)
-Lemma put3_total budget chunk c w pol f bs :
-  0 < budget -> reachable budget chunk c w -> opol_ok pol -> consistent c f bs ->
+Lemma put3_total_gen budget chunk c w pol f bs :
+  0 < budget -> w3_sorted w -> w3_true_p c w -> opol_ok pol -> consistent c f bs ->
   exists w', put3 budget chunk pol f bs w = Ok w'.
 Proof.
-  intros Hb Hr Hpol Hc.
-  pose proof (reachable_sorted _ _ _ _ Hr) as Hs.
-  pose proof (reachable_true _ _ _ _ Hr) as Ht.
+  intros Hb Hs Ht Hpol Hc.
   destruct (put3 budget chunk pol f bs w) as [w'|e|] eqn:E; [eauto| |].
   - exfalso. eapply (put3_no_err _ _ _ _ c); eauto.
-  - exfalso. clear Ht Hr.
+  - exfalso. clear Ht.
     destruct c as [[c1 c2] c3']. destruct bs as [[b1 b2] b3']. destruct w as [[s1 s2] s3].
     unfold put3 in E. destruct (blen (b1, b2, b3') =? 0) eqn:E0; [discriminate|].
     assert (Hn : Z.of_nat (length (b_cnts b1)) <> 0) by (change (blen (b1, b2, b3') <> 0); lia).
@@ -319,4 +317,11 @@ Proof.
     destruct (upd_pool budget chunk pol f b1 es s1); try discriminate; [|congruence].
     destruct (upd_pool budget chunk pol f b2 eo s2); try discriminate; [|congruence].
     destruct (upd_pool budget chunk pol f b3' ei s3); try discriminate. congruence.
+Qed.
+
+Lemma put3_total budget chunk c w pol f bs :
+  0 < budget -> reachable budget chunk c w -> opol_ok pol -> consistent c f bs ->
+  exists w', put3 budget chunk pol f bs w = Ok w'.
+Proof.
+  intros Hb Hr. apply put3_total_gen; [exact Hb|eapply reachable_sorted; eauto|eapply reachable_true; eauto].
 Qed.
